@@ -417,3 +417,30 @@ def jobs(tier, seed):
         jobs.append({"harness": "frame", "params": {"cfg": S.JS, "scaffold": sc, "spec": spec, "name": "ctx"},
                      "weight": 4, "cpu_cap": 1200, "wall_cap": 1800})
     return jobs
+
+
+def thorough_extra(seed):
+    jobs = []
+    for layout in range(len(ALT_LAYOUTS)):
+        for ch in ([0, 1], [1, 2]):
+            # two pre-emptions (A paused, B paused, A resumes, B resumes), statement budget 0..30 each
+            jobs.append({"harness": "schedule", "params": {"layout": layout, "callers": 2, "preempt": 2, "invalidated": False, "pmax": 30, "chains": ch},
+                         "weight": 40, "cpu_cap": 9000, "wall_cap": 10000})
+        jobs.append({"harness": "schedule", "params": {"layout": layout, "callers": 3, "preempt": 1, "invalidated": False, "pmax": 45, "chains": [0, 1, 2]},
+                     "weight": 20, "cpu_cap": 6000, "wall_cap": 7200})
+    cfg = dict(S.JS)
+    ranges = [(0, 6), (7, 11), (12, 17), (18, 18), (19, 21), (22, 25), (26, 29), (30, 33), (34, 38), (39, 42), (43, 45)]
+    for lo, hi in ranges:
+        jobs.append({"harness": "reenter", "params": {"cfg": cfg, "lo": lo, "hi": hi, "warm": True}, "weight": 8, "cpu_cap": 3000, "wall_cap": 4000})
+    for lo, hi in ((7, 11), (18, 18), (25, 25)):
+        jobs.append({"harness": "reenter", "params": {"cfg": cfg, "lo": lo, "hi": hi, "warm": False, "free_a": True}, "weight": 40, "cpu_cap": 9000,
+                     "wall_cap": 10000, "path_cap": 120})
+    spec = {n: {"exclude": "\r\0"} for n in "abcdefgh"}
+    from ..mdutil import shard_extras
+
+    for name, extra in shard_extras("a", exclude="\r\0"):
+        sp = {k_: dict(v) for k_, v in spec.items()}
+        sp["a"] = dict(sp["a"], extra=extra)
+        jobs.append({"harness": "frame", "params": {"cfg": S.CM, "scaffold": free_doc(2, "\n"), "spec": sp, "name": "free-cm", "shard": name},
+                     "weight": 12, "cpu_cap": 3000, "wall_cap": 4000})
+    return jobs
